@@ -6,6 +6,12 @@
                                        magic, file header, the load-command walk, segment/section decoding)
     /repo/lib/fruit/csblob/{csblob,sign,verify}.go (`parseSignature`, `DefaultsFromSignature`, `bestDir`, `Verify`'s slot checks)
   Fat binaries are out of scope (`scanFile` refuses their magic; signers/macho/fatfile.go splits them).
+  `scan` / `plan` / `sign` follow the current tree, i.e. with the two guards of
+    F-MACHO-4 (/repo bd2b0c4)  `scanFile` refuses an image whose load commands do not fill `sizeofcmds` when it has no
+                               LC_CODE_SIGNATURE command yet (`len(dat) != 0 && f.loadCsStart == 0`);
+    F-MACHO-3 (/repo 5805b39)  `Sign` refuses when a fresh signature region would exceed what `readSigBlob` reads
+                               (`markers.sigLen < estimatedSize && align(estimatedSize, 8) > 10e6`);
+  `scanOrig` / `planOrig` / `signOrig` are the tree before them (kept for the theorems about the defects).
   Integers: file offsets are modelled as `Int`/`Nat`; where Go's int64 would wrap the model says `err range`.
 -/
 import Relic.Base.Bytes
@@ -109,8 +115,43 @@ def readMagic (f : Bytes) : Option (Bool × Nat) :=
   else if lev - lev % 2 = 0xfeedface then some (false, lev)
   else none
 
+/-- where the load-command loop of `scanFile` stands after `n` commands starting at `pos`, none of them refused: every
+    turn does `dat = dat[siz:]`, so behind the loop `len(dat) = endOfHeader - cmdEnd …` -/
+def cmdEnd (be : Bool) (f : Bytes) : Nat → Nat → Nat
+  | 0, pos => pos
+  | n + 1, pos => cmdEnd be f n (pos + rd32 be f (pos + 4))
+
 /-- `scanFile(r)` on a reader over `f` -/
 def scan (f : Bytes) : Res Markers :=
+  if f.length < 4 then .err "eof" else
+  match readMagic f with
+  | none => .err "magic"
+  | some (be, magic) =>
+    if f.length < 28 then .err "eof" else
+    let ncmd := rd32 be f 16
+    let cmdsz := rd32 be f 20
+    let hdrEnd := if magic = 0xfeedfacf then 32 else 28
+    if f.length - hdrEnd < cmdsz then .err "eof" else
+    let stop := hdrEnd + cmdsz
+    match cmdLoop be f stop ncmd hdrEnd {} with
+    | .err e => .err e
+    | .panic p => .panic p
+    | .diverge => .diverge
+    | .ok st =>
+      -- `if len(dat) != 0 && f.loadCsStart == 0` (fix F-MACHO-4): bytes of `sizeofcmds` behind the last command
+      if stop - cmdEnd be f ncmd hdrEnd ≠ 0 ∧ st.loadCsStart = 0 then .err "slack" else
+      if st.lePos = 0 then .err "nolinkedit" else
+      let leEnd := wrapI64 (CodeDir.toI64 st.leOffset + CodeDir.toI64 st.leFilesz)
+      let consumed := if cmdsz = 0 then min f.length hdrEnd else stop
+      let mk (cs : Int) : Markers :=
+        ⟨be, magic, st.sigStart, st.sigLen, st.loadCsStart, st.lePos, st.leOffset, st.leFilesz, stop, st.firstSh, cs, consumed⟩
+      if st.sigLen ≠ 0 then
+        let sigEnd : Int := st.sigStart + st.sigLen
+        if sigEnd > leEnd ∨ sigEnd < wrapI64 (leEnd - 16) then .err "coterminous" else .ok (mk st.sigStart)
+      else .ok (mk leEnd)
+
+/-- `scanFile(r)` as it was before fix F-MACHO-4 (no test of what is left of `dat` behind the loop) -/
+def scanOrig (f : Bytes) : Res Markers :=
   if f.length < 4 then .err "eof" else
   match readMagic f with
   | none => .err "magic"
@@ -203,6 +244,33 @@ structure Plan where
     spliced from the PATCHED header, the rest of the file and the padding, cut at `sigStart`. -/
 def plan (f : Bytes) (hashSize entLen reqLen : Nat) : Res Plan :=
   match scan f with
+  | .err e => .err e
+  | .panic p => .panic p
+  | .diverge => .diverge
+  | .ok m =>
+    let est : Int := Int.tdiv (m.codeSize * (20 + hashSize : Nat)) 4096 + (entLen + reqLen : Nat) + 16384
+    -- `if markers.sigLen < estimatedSize && align(estimatedSize, alignSegmentFile) > 10e6` (fix F-MACHO-3; `est` is
+    -- positive where `align` is evaluated: `sigLen ≥ 0`).  Where the int64 product of the estimate would wrap, the
+    -- model says `err range` (only with a __LINKEDIT end beyond 2^57: `patchSignature` says the same above 2^40).
+    if m.codeSize * (20 + hashSize : Nat) ≥ 2 ^ 63 ∨ m.codeSize * (20 + hashSize : Nat) < -(2 ^ 63) then .err "range" else
+    if (m.sigLen : Int) < est ∧ align est.toNat 8 > 10000000 then .err "signtoolarge" else
+    match patchSignature m (f.take m.consumed) est with
+    | .err e => .err e
+    | .panic p => .panic p
+    | .diverge => .diverge
+    | .ok po =>
+      let extended := po.newHeader.length - m.consumed
+      if f.length - m.consumed < extended then .err "eof" else
+      -- `io.LimitReader(r, codeSize - len(headerBuf))`: what lies behind the end of code is not hashed
+      let rest := (f.drop (m.consumed + extended)).take (m.codeSize - (po.newHeader.length : Int)).toNat
+      let stream := (po.newHeader ++ rest ++ zeros po.padding).take po.sigStart
+      let fromR := min rest.length (po.sigStart - po.newHeader.length)
+      .ok ⟨m, po, stream, if m.sigLen ≠ 0 then some (((f.drop (m.consumed + extended)).drop fromR).take m.sigLen) else none⟩
+
+/-- `machos.Sign` up to the call of `csblob.Sign`, as it was before the fixes F-MACHO-3 (no upper limit on the reserved
+    region) and F-MACHO-4 -/
+def planOrig (f : Bytes) (hashSize entLen reqLen : Nat) : Res Plan :=
+  match scanOrig f with
   | .err e => .err e
   | .panic p => .panic p
   | .diverge => .diverge
@@ -311,6 +379,24 @@ structure SignOut where
 /-- `machos.Sign` with the CMS blob as a parameter of the caller: everything up to the size check -/
 def sign (f : Bytes) (p : SignParams) : Res SignOut :=
   match plan f (hashSizeOf p.hash) ((p.entitlement.map (·.length)).getD 0) ((p.requirements.map (·.length)).getD 0) with
+  | .err e => .err e
+  | .panic s => .panic s
+  | .diverge => .diverge
+  | .ok pl =>
+    match defaults p pl.oldSig with
+    | .err e => .err e
+    | .panic s => .panic s
+    | .diverge => .diverge
+    | .ok (p', opq) =>
+      match signBlob p' pl.stream with
+      | .ok s => .ok ⟨pl, s, opq⟩
+      | .err e => .err e
+      | .panic s => .panic s
+      | .diverge => .diverge
+
+/-- `machos.Sign` before the fixes F-MACHO-3 and F-MACHO-4 -/
+def signOrig (f : Bytes) (p : SignParams) : Res SignOut :=
+  match planOrig f (hashSizeOf p.hash) ((p.entitlement.map (·.length)).getD 0) ((p.requirements.map (·.length)).getD 0) with
   | .err e => .err e
   | .panic s => .panic s
   | .diverge => .diverge
